@@ -79,7 +79,7 @@ private:
   ParseExpression(Parser& p, Context& ctx)
   : p(p), ctx(ctx) { }
 
-  Expression * member(Expression * exp);
+  Expression * member(Expression *& exp);
 
   Expression * element();
 
